@@ -151,6 +151,25 @@ func Apply(fs FS, root string, o Op, seq int) error {
 			return fmt.Errorf("not applicable")
 		}
 		return fs.RemoveAll(dir)
+	case "mvdir-away":
+		// the Spec directory itself is renamed away (with whatever it contains)
+		if !exists(dir) {
+			return fmt.Errorf("not applicable")
+		}
+		return fs.Rename(dir, filepath.Join(outside, fmt.Sprintf("diraway%d", seq)))
+	case "mvdir-in":
+		// a directory prepared elsewhere (holding one Spec file) is renamed to the Spec directory's name
+		if exists(dir) {
+			return fmt.Errorf("not applicable")
+		}
+		src := filepath.Join(outside, fmt.Sprintf("dirprep%d", seq))
+		if err := os.MkdirAll(src, 0o755); err != nil {
+			return err
+		}
+		if err := os.WriteFile(filepath.Join(src, o.Name), Content(o.Content, o.Name, marker), 0o644); err != nil {
+			return err
+		}
+		return fs.Rename(src, dir)
 	}
 	return fmt.Errorf("unknown op %s", o.Kind)
 }
@@ -175,6 +194,7 @@ func Alphabet(dirs []string, optionalDirs []string) []Op {
 	}
 	for _, d := range optionalDirs {
 		ops = append(ops, Op{Kind: "mkdir", Dir: d}, Op{Kind: "rmtree", Dir: d})
+		ops = append(ops, Op{Kind: "mvdir-away", Dir: d}, Op{Kind: "mvdir-in", Dir: d, Name: "x.yaml", Content: "A"})
 	}
 	return ops
 }
